@@ -92,6 +92,67 @@ def mode_regions(B):
     return None
 
 
+def transport_rules(ctx, RULE):
+    """stream halves are dropped only by connect/close/take; every success path of a write really writes; no frame read is raced"""
+    from ..wire import success_sequences
+    P = ctx.P
+    ctx.rule(RULE, 'the framed transport (a) gives up its stream halves only in connect (before a new stream is stored), close and take_read_half - a failed or timed-out read leaves the stream in place for the next read; '
+             '(b) writes a frame on every successful return of write(), the empty frame included (a tick is a frame); (c) never polls a frame read together with another future in a select: '
+             'read_exact is not cancellation safe, the bytes consumed so far would be lost and the rest of the frame read as new frames', floor=3)
+    TR = 'edp_client::transport::FramedTransport::'
+    allowed = ('connect', 'close', 'take_read_half', 'shutdown', 'disconnect', 'set_stream', 'new')
+    n = 0
+    for q in sorted(ctx.F.bodies):
+        if 'edp_client::transport::' not in q:
+            continue
+        XB = P.B(q)
+        base = q.split('::{')[0].rsplit('::', 1)[-1]
+        for bb, j, st in XB.stmts():
+            ps = st['pl'].get('p') or [] if st['k'] == '=' else []
+            if ps and isinstance(ps[-1], dict) and ps[-1].get('n') in ('read_half', 'write_half'):
+                n += 1
+                if base in allowed:
+                    ctx.ok(RULE, '%s:%s' % (base, ps[-1]['n']), 'assigned in %s' % base, ctx.where(XB, ln=st['ln']))
+                else:
+                    ctx.bad(RULE, '%s:%s' % (base, ps[-1]['n']), '%s assigns the transport\'s %s: after that every further read / write fails with "no active stream" although the peer did nothing wrong' % (base, ps[-1]['n']),
+                            ctx.where(XB, ln=st['ln']), key='WHO:%s%s:writes-%s' % (TR, base, ps[-1]['n']))
+        for bb, t in XB.calls():
+            nm = callee_of(t)[0] or ''
+            if nm.rsplit('::', 1)[-1] in ('take', 'replace') and t['args'] and any(x in str(canon(XB, t['args'][0])) for x in ("'read_half'", "'write_half'")):
+                n += 1
+                if base in allowed:
+                    ctx.ok(RULE, '%s:take' % base, 'stream half handed over in %s' % base, ctx.where(XB, bb))
+                else:
+                    ctx.bad(RULE, '%s:take' % base, '%s takes a stream half out of the transport' % base, ctx.where(XB, bb), key='WHO:%s%s:takes-stream-half' % (TR, base))
+    # (b) write() writes
+    WB = P.B(TR + 'write::{closure#0}')
+    if ctx.anchor(WB is not None, TR + 'write'):
+        def ev(B_, bb):
+            t = B_.blocks[bb]['t']
+            if t['k'] == 'call' and any(('write' in (x or '').rsplit('::', 1)[-1] or 'frame' in (x or '').rsplit('::', 1)[-1]) and 'tracing' not in (x or '') for x in callee_names(t)):
+                return [('w', bb)]
+            return []
+        seqs, trunc = success_sequences(WB, ev)
+        n += 1
+        if any(not s_ for s_ in seqs):
+            ctx.bad(RULE, 'write:always', 'FramedTransport::write has a successful return on which nothing is written: the message (a tick, if it is empty) never reaches the wire although the caller is told it did',
+                    ctx.where(WB), key='WIRE:%swrite:success-path-writes-nothing' % TR)
+        else:
+            ctx.ok(RULE, 'write:always', 'every successful return of write() has passed the frame write', ctx.where(WB))
+    # (c) no select around a frame read
+    for q in sorted(ctx.F.bodies):
+        if not (q.startswith('edp_client::connection::Connection::receive') or q.startswith('edp_client::connection::Connection::read_message') or 'edp_client::transport::' in q or 'edp_client::framing::' in q):
+            continue
+        XB = P.B(q)
+        for bb, t in XB.calls():
+            nm = callee_of(t)[0] or ''
+            if 'tokio::macros::support::poll_fn' in nm or nm.endswith('future::poll_fn::poll_fn') or 'futures_util::future::select' in nm or 'tokio::macros::support::thread_rng_n' in nm:
+                n += 1
+                ctx.bad(RULE, '%s:select' % q.split('::{')[0].rsplit('::', 1)[-1], 'a frame read is polled inside a select together with another future: when the other one wins, the partly read frame is dropped and the stream is out of step',
+                        ctx.where(XB, bb), key='LOOP:%s:frame-read-in-select' % q.split('::{')[0])
+    return n
+
+
 def run(ctx):
     P = ctx.P
     # ---- clause 1: only exact-read primitives on the read path ------------------
@@ -326,6 +387,9 @@ def run(ctx):
     from ..families import check_error_swallow as _swallow
     ctx.rule('C05.8-errors-surface', 'in the functions of this property that can themselves report failure, the Result of one of the repository\'s own fallible functions is never turned into "nothing" or a default (ok(), unwrap_or*, map_or*): an error must surface as an error, not as a value the callee never produced; a rule about what must not be there (exercised on the fixture every run)', floor=0)
     _swallow(ctx, P, 'C05.8-errors-surface', ('edp_client::framing::', 'edp_client::transport::'))
+
+    # the transport keeps its stream until it is closed: a read that fails or times out leaves the next read possible
+    transport_rules(ctx, 'C05.9-transport-discipline')
 
 
 def read_calls_in_block(B, b):
